@@ -269,8 +269,12 @@ pub fn zstd_record(args: &Args) -> i32 {
     }
     let mut out = std::io::BufWriter::new(std::fs::File::create(args.req("out")).unwrap());
     let mut run = 0;
-    for fi in 0..nfiles {
-        let segs = if fi == 0 { json!([]) } else if fi == 1 { json!([{"c":"junk","n":1}]) } else { random_segs_small(&mut rng) };
+    // the size classes of F: empty, one byte, mixtures of wrappers - and files that do not compress at
+    // all, a few zstd blocks long (every byte string F, the property says)
+    let noise_sizes: Vec<u64> = if args.get("noise").is_some() { vec![200_000, 700_000, 3 << 20] } else { vec![] };
+    for fi in 0..nfiles + noise_sizes.len() {
+        let segs = if fi >= nfiles { json!([{"c":"junk","n":noise_sizes[fi - nfiles]}]) }
+                   else if fi == 0 { json!([]) } else if fi == 1 { json!([{"c":"junk","n":1}]) } else { random_segs_small(&mut rng) };
         let b = build_file(&segs, &big, &small, &mut rng);
         let f = &b.bytes;
         let expanded = match guarded(|| expand_zlib_chunks(f, 0)) { Ok(Ok(x)) => x, _ => continue };
@@ -550,7 +554,14 @@ pub fn abi_record(args: &Args) -> i32 {
         out.flush().unwrap();
         let iso = isolated(8 << 30, 300, || {
             let target: usize = 128 << 20;
+            // 300 KB that do not compress, then zeros: the frame is well over 8 KiB and the expanded form
+            // sits exactly on the limit
             let mut f = vec![0u8; target - 6];
+            let mut x: u64 = 0x9E3779B97F4A7C15;
+            for b in f.iter_mut().take(300_000) {
+                x ^= x << 13; x ^= x >> 7; x ^= x << 17;
+                *b = 0x80 | (x as u8);
+            }
             let e = expand_zlib_chunks(&f, 0).map(|x| x.len()).unwrap_or(0);
             if e != target && e > 0 { let n = (f.len() as i64 + target as i64 - e as i64) as usize; f.resize(n, 0); }
             let e = expand_zlib_chunks(&f, 0).map(|x| x.len()).unwrap_or(0);
